@@ -36,7 +36,7 @@ theorem operand_error_is_recovered :
     Gen.Limits.emitOperandErrorPanics = 1 ∧ Gen.Limits.emitOtherPanics = 0 ∧
     Gen.Limits.changeOperandOperandErrorPanics = 1 ∧ Gen.Limits.changeOperandOtherPanics = 0 ∧
     Gen.Limits.compileScriptRecoversOperandError = true ∧ Gen.Limits.compileScriptRepanicsOthers = true ∧
-    Gen.Limits.compileScriptReturnsOperandError = true := by decide
+    Gen.Limits.compileScriptReturnsOperandError = true ∧ Gen.Limits.compileFileRecoversOperandError = true := by decide
 
 /-! ### MakeInstruction -/
 
